@@ -82,7 +82,7 @@ CLAIMS.update({
              "return_call_indirect cycles) with every branch condition symbolic, a module closed before the cycle ends the call with the exit error for its cause within a step budget (exceeding the budget is the violation, replayed "
              "natively as a hang); a close arriving from a host callback at round 0..2 stops the guest at the next check; a call with an already-done context - a hand-written one, a real context.WithCancel, and a real context.WithCancelCause cancelled with a custom cause - returns the matching exit code and closes the module. "
              "The watcher goroutine is not scheduled in the model (its effect is applied explicitly); Cycle shapes include switch-in-loop forms (the loop repeated only through a br_table whose first label is a block, or as the default). Cross-module: each cycle shape running in a function imported from another module, entered directly (depth 1) or through another function of that module (depth 2), stops when the module the call was made on is closed. Compiler front end: for each cycle shape (incl. tail calls; with and without imported functions) the optimised SSA compiled with close-on-context-done leaves through the exit-code check within the step bound once the module is closed, "
-             "for all branch conditions. Wall-clock promptness, the watcher goroutine and the native call engine are outside this claim."),
+             "for all branch conditions. Wall-clock promptness, the scheduling of the watcher goroutine (the moment at which it runs) and the native call engine are outside this claim."),
     "C20": dict(level="model_checking", engine="gosym", technique=E1_TECH, design_ref="DESIGN.md §5 C20",
         text="Interpreter side: guest f -> guest g -> host h with recording listeners, all parameter/result values and the trap decision symbolic: the event log is well nested with exactly one before and one after/abort per call, "
              "carries the actual parameters and results, the stack iterator lists the real chain callee-outward at every before-event, results equal the listener-free run; recursion to every depth 0..39 followed by a trap "
